@@ -32,6 +32,9 @@ def main() -> int:
     os.environ.setdefault(common.GUARD, "1")
 
     ctx = common.Ctx(prop=prop, tier=args.tier, seed=seed)
+    if not args.replay:
+        for old in common.REPLAYS.glob(f"{prop}_*.json"):
+            old.unlink()
     mod = importlib.import_module(f"props.{prop.lower()}")
     try:
         impl = common.assert_repo_on_path()
